@@ -7,13 +7,15 @@
 EXTENDS Naturals, Sequences, FiniteSets, TLC, Json
 
 Post == "POST"  Redirect == "Redirect"  Artifact == "Artifact"  Soap == "SOAP"
+SimpleSign == "SimpleSign"            \* HTTP-POST-SimpleSign: a binding of its own, not HTTP-POST
 \* ACS endpoints of sp1 per metadata layout, in document order: <<binding, location, index>>
-Layouts == {"L1", "L2", "L3", "L4"}
+Layouts == {"L1", "L2", "L3", "L4", "L5"}
 Acs(l) == CASE l = "L1" -> << <<Post, "url1", 1>> >>
             [] l = "L2" -> << <<Post, "url1", 1>>, <<Post, "url2", 2>>, <<Redirect, "url3", 3>> >>
             [] l = "L3" -> << <<Redirect, "url3", 1>> >>
             [] l = "L4" -> << <<Artifact, "url4", 2>>, <<Post, "url1", 1>> >>
-Slo(l) == IF l = "L3" THEN <<>> ELSE << <<Soap, "slo1", 0>>, <<Redirect, "slo2", 0>> >>
+            [] l = "L5" -> << <<SimpleSign, "url5", 1>>, <<Redirect, "url3", 2>> >>
+Slo(l) == IF l \in {"L3", "L5"} THEN <<>> ELSE << <<Soap, "slo1", 0>>, <<Redirect, "slo2", 0>> >>
 AcsOther == << <<Post, "urlB", 1>> >>                \* the other SP (sp2)
 SloOther == << <<Redirect, "sloB", 0>> >>
 
@@ -22,7 +24,7 @@ Issuers == {"sp1", "sp2", "unknown", "sp1-slash", "sp1-case"}
 Known(i) == i \in {"sp1", "sp2"}
 \* the entity ids of the providers are URNs, or URLs (what most federations use)
 IdStyles == {"urn", "url"}
-Urls == {"absent", "url1", "url2", "url3", "urlB", "url1-case", "url1-slash", "url1-query", "url1-port", "url1-prefix", "url1-parent", "url1-pct",
+Urls == {"absent", "url1", "url2", "url3", "url5", "urlB", "url1-case", "url1-slash", "url1-query", "url1-port", "url1-prefix", "url1-parent", "url1-pct",
          \* url1 under another scheme, without a scheme
          "url1-http", "url1-noscheme", "unregistered"}
 Indexes == {"absent", "1", "2", "9"}
@@ -37,6 +39,8 @@ Scn == [typ : {"authn"}, layout : Layouts, issuer : Issuers, url : Urls, index :
        \cup [typ : {"logout"}, layout : Layouts, issuer : Issuers, url : {"absent"}, index : {"absent"}, pbinding : {"absent"}, prev : Prev,
              signed : {FALSE}, idStyle : IdStyles]
 WellFormed(s) == /\ s.signed => Known(s.issuer) /\ s.prev = "none" /\ s.index = "absent"
+                 /\ s.url = "url5" => s.layout = "L5" /\ s.prev = "none" /\ ~s.signed
+                 /\ s.layout = "L5" => s.prev = "none" /\ ~s.signed /\ s.idStyle = "urn"
                  /\ s.idStyle = "url" => s.prev = "none" /\ ~s.signed /\ s.layout \in {"L1", "L2"} /\ s.index = "absent"
                  /\ s.issuer \in {"sp1-slash", "sp1-case"} => s.prev = "none" /\ ~s.signed /\ s.index = "absent"
 
@@ -70,9 +74,12 @@ Answer == /\ pc = "pick" /\ pc' = "done" /\ UNCHANGED scn
 MustRefuse == \/ ~Known(scn.issuer)
               \/ (scn.url # "absent" /\ \A e \in Registered(scn) : e[2] # scn.url)
 ResultOK(r) == r = Err \/ (r \in Registered(scn) /\ (scn.url # "absent" => r[2] = scn.url))
+\* (an endpoint registered under a binding the IdP does not answer over -- HTTP-POST-SimpleSign -- obliges to nothing)
+TriedSet == {Tried[i] : i \in 1..Len(Tried)}
+Answerable(s) == {<<Endpoints(s)[i][1], Endpoints(s)[i][2]>> : i \in {j \in 1..Len(Endpoints(s)) : Endpoints(s)[j][1] \in TriedSet}}
 MustAnswer == /\ Known(scn.issuer) /\ scn.pbinding = "absent"
-              /\ \/ (scn.url = "absent" /\ Endpoints(scn) # <<>>)
-                 \/ (scn.url # "absent" /\ \E e \in Registered(scn) : e[2] = scn.url)
+              /\ \/ (scn.url = "absent" /\ Answerable(scn) # {})
+                 \/ (scn.url # "absent" /\ \E e \in Answerable(scn) : e[2] = scn.url)
 Emit == /\ pc = "done" /\ pc' = "emitted" /\ UNCHANGED <<scn, result>>
         /\ PrintT(<<"CASE", ToJson([scn |-> scn, model |-> result, mustRefuse |-> MustRefuse, mustAnswer |-> MustAnswer,
                                     registered |-> Registered(scn)])>>)
